@@ -283,7 +283,7 @@ class K(object):
         self.via = via
 
 
-def h_proto(sp, n_types=3, same_name=True):
+def h_proto(sp, n_types=3, same_name=True, falsy=True):
     n = 1 + sp.choose(n_types, 'n-types')
     kinds = []
     for i in range(n):
@@ -315,7 +315,7 @@ def h_proto(sp, n_types=3, same_name=True):
             return t(source='method', via=label)
         return method
 
-    falsy_entries = bool(sp.flag('falsy-dict-entries'))
+    falsy_entries = falsy and bool(sp.flag('falsy-dict-entries'))
 
     class FalsyCallable:
         """a callable init_methods entry whose truth value is False (eg. an empty component pool with __len__)"""
@@ -549,7 +549,8 @@ TIERS = {
     'thorough': [('update', dict(max_listeners=3, frames=3, adder=True), dict(required=['relayed', 'listener-adds-processor'])),
                  ('twin', dict(steps=2)), ('twin', dict(steps=4, focus='procs'), dict(required=PROC_OPS + ['direct-world-op'])),
                  ('twin', dict(steps=2, second_types=1, ids=(None, '')), dict(required=COMP_OPS + NULLARY + ['unusual-ids'])),
-                 ('twin', dict(steps=4, focus='comps'), dict(required=FOCUS_COMP_OPS + ['ref-set-sub', 'direct-world-op'])), ('proto', dict(n_types=3)), ('update', dict(max_listeners=4, frames=3)),
+                 ('twin', dict(steps=4, focus='comps'), dict(required=FOCUS_COMP_OPS + ['ref-set-sub', 'direct-world-op'])), ('proto', dict(n_types=3, falsy=False), dict(required=['from-dict', 'from-method', 'from-sub-method', 'from-default', 'name-clash', 'sub-init_methods', 'type-listed-twice'])),
+                 ('proto', dict(n_types=2)), ('update', dict(max_listeners=4, frames=3)),
                  ('update', dict(max_listeners=3, frames=4, raiser=True), dict(required=['relayed', 'listener-raised', 'frame-after-failure']))],
 }
 BUDGET_S = {'quick': 150, 'thorough': 1500}
